@@ -185,9 +185,9 @@ def _judge_partition(ctx, v, m, out, exc, origin):
     judged = steps
     ghost = False
     if band and len(steps) >= 2 and abs(steps[-1]) <= 1e-9 * float(m):
-        ghost = True
-        judged = steps[:-1]
-        ctx.count("ghost_step_tolerated")
+        # "each with 0 < step": an empty last step is a violation like any other non-positive step (it used to be
+        # tolerated while the repository produced it, see DESIGN 5.2 D29)
+        ctx.count("empty_last_step_in_the_near_multiple_band")
     has_over = max(steps) > m
     has_nonpos = min(judged) <= 0
     d1 = nonint and (has_over or has_nonpos)
